@@ -57,6 +57,19 @@ CLAIMS = {
              "Bounds: tuples of <=5 divisions (K), <=5 rows and <=3 partitions (P).",
         design="§4 C06",
     ),
+    "C05": dict(
+        category="model_checking", engine="P",
+        technique="symbolic execution of the real fused task graphs over mutable symbolic partitions with an argument-identity oracle around every task call; z3 decides that the forward and the reverse dependency-respecting evaluation orders compute the same partitions; concrete by-products (argument hashing under the real scheduler, source isolation) labelled as such",
+        text="Restricted claim: (1) dask-expr's own task functions (assign, _SetIndexPost.operation, AssignPartitioningIndex.operation, Reduction chunk/combine/aggregate, rename operations, "
+             "fused sub-graphs, ...) run for real on symbolic containers whose setters work in place like pandas'; a task call after which a data argument is no longer the object it was "
+             "is a mutation for every table content (the decision is data-independent), replayed on the real scheduler with hashed arguments before it is reported. (2) The same graph is "
+             "evaluated in the forward and in the reverse dependency-respecting order (every pair of consumers of a shared key swaps) and z3 proves the partitions equal for all data. "
+             "(3) By-products, concrete: every real task leaves its (hashed) arguments unchanged on the default tables - this observes the purity of the pandas / dask leaf callables that "
+             "(1) assumes -, two computes agree, the user's pandas objects are neither changed by a compute nor aliased by the collection.",
+        note="Outside the claim: mutation inside pandas C code on inputs other than the default tables, real thread interleavings, the disk shuffle (partd files, barrier), p2p, user functions "
+             "other than the fixed non-mutating templates. Explicit-dependency closure of the graphs is C09's claim. Bounds: <=5 rows/input, <=4 partitions, families F05 (shared intermediates), a slice of F01, F14.",
+        design="§4 C05 (as built: §11.7)",
+    ),
     "C07": dict(
         category="model_checking", engine="P",
         technique="symbolic execution of real plans; labels/names/container kind of every partition compared with the node's _meta (data-independent, path explorer for data-dependent branches)",
@@ -191,7 +204,6 @@ CLAIMS = {
     ),
 }
 NA = {
-    "C05": "mutation/aliasing is decided inside pandas' C block manager and disk shuffle needs real I/O; with pure symbolic frames every schedule trivially agrees (vacuous) - needs dynamic schedule exploration, another technique",
 }
 PENDING = "check not built yet in this session (planned, see DESIGN.md §4); not claimed until its check exists"
 ALL = [f"C{i:02d}" for i in range(1, 20)]
@@ -227,7 +239,7 @@ def main():
         "engines": [
             {"name": "K", "path": "kernels/", "serves_properties": ["C02", "C06", "C08", "C09", "C11", "C13", "C15", "C16", "C17", "C18", "C19"],
              "kind_free_text": "CrossHair symbolic execution (z3 per path) of real planner functions with stub self"},
-            {"name": "P", "path": "symdf/", "serves_properties": ["C01", "C02", "C03", "C04", "C06", "C07", "C09", "C10", "C11", "C12", "C13", "C14", "C17", "C19"],
+            {"name": "P", "path": "symdf/", "serves_properties": ["C01", "C02", "C03", "C04", "C05", "C06", "C07", "C09", "C10", "C11", "C12", "C13", "C14", "C17", "C19"],
              "kind_free_text": "real planner run concretely, real task graph executed over symbolic partitions (z3), equivalence/routing obligations"},
             {"name": "T", "path": "smt/", "serves_properties": ["C13"], "kind_free_text": "AST->SMT-LIB QF_BVFP translation of the float boundary formula, cvc5"},
         ],
